@@ -2182,3 +2182,351 @@ theorem c15_object_history_counterexample : ¬ c15_object_history_statement := b
   have h0 := hg.1
   rw [C15.gp_exact _ hG', hlb] at h0
   norm_num at h0
+
+/-! ## Null method, permutations of grid values, the PDF registry -/
+
+section nullm
+variable {F : Type} [Add F] [Sub F] [Mul F] [Div F] [LT F] [DecidableLT F] [RoundOps F]
+
+/-- **Null method**: `D` gradient rows (one per parameter grid), one entry per value, all zero; the
+values are the manifold function at the *nearest grid points* of every parameter column. -/
+theorem c15_null_shape_and_zero (Gs : List (PGrid F)) (Mf : Option Int → List (List F) → List F)
+    (sid : Option Int) (params : List (List F)) :
+    let r := nullSpec Gs Mf sid params
+    r.1 = Mf sid (List.zipWith (fun G col => col.map (roundNearest G)) Gs params) ∧
+    r.2.length = Gs.length ∧ ∀ row ∈ r.2, row = List.replicate r.1.length (ofI 0) := by
+  intro r
+  refine ⟨rfl, by simp [r, nullSpec], ?_⟩
+  intro row hrow
+  simp only [r, nullSpec, List.mem_map] at hrow
+  obtain ⟨_, _, rfl⟩ := hrow
+  rfl
+
+end nullm
+
+/-- **Null method: gradient = derivative of the reported value** (ℝ, one grid, one value): off the
+switching points of the rounding the reported value is locally constant in the parameter, so its
+derivative is the reported gradient 0. -/
+theorem c15_null_grad_is_deriv (G : PGrid ℝ) (Mf : Option ℤ → List (List ℝ) → List ℝ)
+    (hM : ∀ s g, (Mf s g).length = 1) (sid : Option ℤ) (x : ℝ)
+    (hx : ∀ n : ℤ, (x - G.lb) / G.delta * 10 ^ G.fd ≠ n + 1 / 2) :
+    ∃ val : ℝ → ℝ, (∀ᶠ t in nhds x, nullSpec [G] Mf sid [[t]] = ([val t], [[0]])) ∧
+      HasDerivAt val 0 x := by
+  obtain ⟨m, hm⟩ := List.length_eq_one_iff.mp (hM sid [[roundNearest G x]])
+  refine ⟨fun _ => m, ?_, hasDerivAt_const x m⟩
+  filter_upwards [c15_rounding_locally_constant G x hx] with t ht
+  obtain ⟨_, _, e⟩ := ht
+  simp [nullSpec, nullGridParams, e, hm]
+
+section product
+variable {α : Type}
+
+/-- **permutations of grid values** (`itertools.product`): a tuple is produced exactly when it
+takes one member from every grid, in order … -/
+theorem c15_product_mem (gs : List (List α)) (t : List α) :
+    t ∈ gridProduct gs ↔ List.Forall₂ (· ∈ ·) t gs := by
+  induction gs generalizing t with
+  | nil => cases t <;> simp [gridProduct]
+  | cons g rest ih =>
+    simp only [gridProduct, List.mem_flatMap, List.mem_map]
+    constructor
+    · rintro ⟨x, hx, t', ht', rfl⟩
+      exact List.Forall₂.cons hx ((ih t').mp ht')
+    · intro h
+      cases h with
+      | cons hx hrest => exact ⟨_, hx, _, (ih _).mpr hrest, rfl⟩
+
+/-- … and there are `∏ len` of them -/
+theorem c15_product_length (gs : List (List α)) :
+    (gridProduct gs).length = (gs.map List.length).prod := by
+  induction gs with
+  | nil => simp [gridProduct]
+  | cons g rest ih =>
+    simp only [gridProduct, List.map_cons, List.prod_cons, ← ih]
+    induction g with
+    | nil => simp
+    | cons x t iht => simp [List.flatMap_cons, iht, Nat.add_mul]; omega
+
+end product
+
+section registry
+variable {F : Type} [BEq F] [LawfulBEq F] {P : Type}
+
+namespace C15
+
+theorem keyEq_refl (d : List (String × F)) : keyEq d d = true := by
+  unfold keyEq
+  simp only [Bool.and_eq_true, List.all_eq_true, List.any_eq_true, Bool.and_self]
+  intro i hi
+  exact ⟨i, hi, by simp⟩
+
+theorem keyEq_single (n : String) (v w : F) : keyEq [(n, v)] [(n, w)] = true ↔ v = w := by
+  simp [keyEq]
+  exact fun h => h.symm
+
+/-- registering the dictionaries of a list whose keys are pairwise different succeeds and stores
+them in order -/
+theorem pdfAddAll_distinct (mk : List (String × F) → P) (ds : List (List (String × F)))
+    (hd : ds.Pairwise fun a b => keyEq a b = false) (s0 : PDFSetM F P)
+    (h0 : ∀ e ∈ s0, ∀ d ∈ ds, keyEq e.1 d = false) :
+    pdfAddAll mk s0 ds = some (s0 ++ ds.map fun d => (d, mk d)) := by
+  induction ds generalizing s0 with
+  | nil => simp [pdfAddAll]
+  | cons d rest ih =>
+    rw [List.pairwise_cons] at hd
+    have hget : pdfGet s0 d = none := by
+      unfold pdfGet
+      rw [Option.map_eq_none_iff, List.find?_eq_none]
+      intro e he
+      simp [h0 e he d (by simp)]
+    unfold pdfAddAll pdfAdd
+    rw [hget]
+    simp only [Option.isSome_none, Bool.false_eq_true, if_false, Option.bind_some]
+    rw [ih hd.2 (s0 ++ [(d, mk d)])]
+    · simp
+    · intro e he d' hd'
+      rcases List.mem_append.mp he with he | he
+      · exact h0 e he d' (by simp [hd'])
+      · simp only [List.mem_singleton] at he
+        subst he
+        exact hd.1 d' hd'
+
+/-- in a registry whose keys are pairwise different, the entry of a registered dictionary is found
+under its own key -/
+theorem pdfGet_registered (mk : List (String × F) → P) (ds : List (List (String × F)))
+    (hd : ds.Pairwise fun a b => keyEq a b = false)
+    (d : List (String × F)) (hmem : d ∈ ds) :
+    pdfGet (ds.map fun d => (d, mk d)) d = some (mk d) := by
+  induction ds with
+  | nil => simp at hmem
+  | cons a rest ih =>
+    rw [List.pairwise_cons] at hd
+    unfold pdfGet
+    rw [List.map_cons, List.find?_cons]
+    rcases List.mem_cons.mp hmem with rfl | hm
+    · simp [keyEq_refl]
+    · have : keyEq a d = false := hd.1 d hm
+      simp only [this]
+      exact ih hd.2 hm
+
+theorem keyEq_symm (a b : List (String × F)) : keyEq a b = keyEq b a := by
+  unfold keyEq
+  rw [Bool.and_comm]
+
+end C15
+
+/-- **keys do not depend on the insertion order of the dictionary items** (`frozenset` of the
+items in `make_dict_hash`) -/
+theorem c15_key_order_independent (d1 d2 : List (String × F)) (h : d1.Perm d2) : keyEq d1 d2 = true := by
+  unfold keyEq
+  simp only [Bool.and_eq_true, List.all_eq_true, List.any_eq_true]
+  constructor
+  · intro i hi; exact ⟨i, h.mem_iff.mp hi, by simp⟩
+  · intro i hi; exact ⟨i, h.mem_iff.mpr hi, by simp⟩
+
+end registry
+
+section lookup
+open C15
+variable {K : Type} [Field K] [LinearOrder K] [IsStrictOrderedRing K] [FloorRing K] [RoundOps K]
+  [LawfulRoundOps K] {P : Type}
+
+/-- **the dictionary-lookup clause, end to end in the model**: build the PDF registry over the grid
+`[gp 0 … gp (n-1)]` the constructor stores (one PDF per `parameter_permutation_dict_list` entry);
+this succeeds (no "already added"), and for every value inside the grid the PDF registered for its
+nearest / lower grid point is found with the *rounded value* as key. -/
+theorem c15_pdfset_lookup_rounded (G : PGrid K) (hG : OnDec G) (hd : 0 < G.delta) (n : ℕ) (hn : 0 < n)
+    (name : String) (mk : List (String × K) → P) :
+    ∃ s, pdfAddAll mk ([] : PDFSetM K P)
+        (permutationDicts [name] [(List.range n).map fun (k : ℕ) => gp G (k : ℤ)]) = some s ∧
+      ∀ v, G.lb ≤ v → v ≤ G.lb + (n - 1 : ℕ) * G.delta →
+        pdfGet s [(name, roundNearest G v)] = some (mk [(name, roundNearest G v)]) ∧
+        pdfGet s [(name, roundLower G v)] = some (mk [(name, roundLower G v)]) := by
+  set grid := (List.range n).map fun (k : ℕ) => gp G (k : ℤ) with hgrid
+  have hds : permutationDicts [name] [grid] = grid.map fun x => [(name, x)] := by
+    simp only [permutationDicts, gridProduct]
+    clear hgrid
+    clear_value grid
+    induction grid with
+    | nil => rfl
+    | cons a t ih =>
+      simp only [List.flatMap_cons, List.map_cons, List.map_nil, List.singleton_append,
+        List.zip_cons_cons, List.zip_nil_right] at ih ⊢
+      rw [ih]
+  have hinj : ∀ i j : ℕ, gp G (i : ℤ) = gp G (j : ℤ) → i = j := by
+    intro i j h
+    rw [gp_exact G hG, gp_exact G hG] at h
+    have : ((i : ℤ) : K) * G.delta = ((j : ℤ) : K) * G.delta := by linarith
+    have := mul_right_cancel₀ hd.ne' this
+    exact_mod_cast this
+  have hdist : (grid.map fun x => [(name, x)]).Pairwise fun a b => keyEq a b = false := by
+    rw [hgrid, List.map_map, List.pairwise_map]
+    apply List.Pairwise.imp _ (List.pairwise_lt_range (n := n))
+    intro i j hij
+    simp only [Function.comp]
+    rw [Bool.eq_false_iff]
+    intro h
+    have := (keyEq_single name _ _).mp h
+    have := hinj i j this
+    omega
+  refine ⟨_, by rw [hds]; exact pdfAddAll_distinct mk _ hdist [] (by simp), ?_⟩
+  intro v hlo hhi
+  obtain ⟨m1, m2⟩ := c15_round_member G hd v n hn hlo hhi
+  simp only [List.nil_append]
+  constructor
+  · apply pdfGet_registered mk _ hdist
+    exact List.mem_map.mpr ⟨_, m2, rfl⟩
+  · apply pdfGet_registered mk _ hdist
+    exact List.mem_map.mpr ⟨_, m1, rfl⟩
+
+end lookup
+
+/-! ## `get_number_of_float_decimals` and the constructor with inferred decimals -/
+
+namespace C15
+
+/-- the trailing-zero counter: the result exceeds `acc` by at most `fuel`, and that many powers of
+ten divide `n` -/
+theorem tz_spec (fuel n acc : ℕ) :
+    acc ≤ decimalsOf.tz fuel n acc ∧ decimalsOf.tz fuel n acc ≤ acc + fuel ∧
+      10 ^ (decimalsOf.tz fuel n acc - acc) ∣ n := by
+  induction fuel generalizing n acc with
+  | zero => simp [decimalsOf.tz]
+  | succ f ih =>
+    unfold decimalsOf.tz
+    split_ifs with h
+    · obtain ⟨h1, h2, h3⟩ := ih (n / 10) (acc + 1)
+      refine ⟨by omega, by omega, ?_⟩
+      have e : decimalsOf.tz f (n / 10) (acc + 1) - acc = (decimalsOf.tz f (n / 10) (acc + 1) - (acc + 1)) + 1 := by
+        omega
+      rw [e, pow_succ]
+      have hn : n = n / 10 * 10 := by omega
+      have := Nat.mul_dvd_mul h3 (dvd_refl 10)
+      rwa [← hn] at this
+    · simp
+
+/-- a number with at most 16 decimals has at most `decimalsOf` decimals: the digit count the
+constructor infers loses nothing -/
+theorem decimalsOf_lattice (x : ℚ) (h : ∃ n : ℤ, x = n / 10 ^ 16) :
+    ∃ m : ℤ, x = m / 10 ^ decimalsOf x := by
+  obtain ⟨n, rfl⟩ := h
+  have hp16 : (0 : ℚ) < 10 ^ 16 := by positivity
+  -- |x|·10^16 is the integer |n|
+  have habs : (if (n : ℚ) / 10 ^ 16 < 0 then -((n : ℚ) / 10 ^ 16) else (n : ℚ) / 10 ^ 16) * p10 16
+      = ((n.natAbs : ℤ) : ℚ) := by
+    rw [p10_eq]
+    split_ifs with hneg
+    · have hn : n < 0 := by
+        have := (div_neg_iff.mp hneg)
+        rcases this with ⟨h1, _⟩ | ⟨h1, _⟩
+        · linarith
+        · exact_mod_cast h1
+      rw [neg_mul, div_mul_cancel₀ _ hp16.ne']
+      have : ((n.natAbs : ℤ)) = -n := by omega
+      rw [this]; push_cast; ring
+    · have hn : 0 ≤ n := by
+        by_contra hc
+        apply hneg
+        apply div_neg_of_neg_of_pos _ hp16
+        exact_mod_cast (not_le.mp hc)
+      rw [div_mul_cancel₀ _ hp16.ne']
+      have : ((n.natAbs : ℤ)) = n := by omega
+      rw [this]
+  unfold decimalsOf
+  simp only []
+  rw [habs, rintI_intCast]
+  simp only [Int.toNat_natCast]
+  set r := n.natAbs % 10 ^ 16 with hr
+  split_ifs with h0
+  · -- no decimals at all: x is an integer
+    have hdiv : (10 ^ 16 : ℕ) ∣ n.natAbs := Nat.dvd_of_mod_eq_zero h0
+    have hdivz : ((10 ^ 16 : ℕ) : ℤ) ∣ n := Int.natCast_dvd.mpr hdiv
+    obtain ⟨q, hq⟩ := hdivz
+    refine ⟨q, ?_⟩
+    rw [hq]
+    push_cast
+    field_simp
+    ring
+  · obtain ⟨_, h2, h3⟩ := tz_spec 16 r 0
+    simp only [Nat.sub_zero, Nat.zero_add] at h2 h3
+    set t := decimalsOf.tz 16 r 0 with ht
+    -- 10^t divides r and 10^16, hence |n| and n
+    have hdiv16 : 10 ^ t ∣ 10 ^ 16 := Nat.pow_dvd_pow 10 h2
+    have hdivn : 10 ^ t ∣ n.natAbs := by
+      have e : n.natAbs = 10 ^ 16 * (n.natAbs / 10 ^ 16) + r := (Nat.div_add_mod _ _).symm
+      rw [e]
+      exact Nat.dvd_add (Dvd.dvd.mul_right hdiv16 _) h3
+    have hdivz : ((10 ^ t : ℕ) : ℤ) ∣ n := Int.natCast_dvd.mpr hdivn
+    obtain ⟨q, hq⟩ := hdivz
+    refine ⟨q, ?_⟩
+    rw [hq]
+    have hpt : (0 : ℚ) < 10 ^ t := by positivity
+    have hsplit : (10 : ℚ) ^ 16 = 10 ^ t * 10 ^ (16 - t) := by
+      rw [← pow_add]; congr 1; omega
+    push_cast
+    rw [hsplit]
+    field_simp
+
+/-- a number with at most `d` decimals has at most `d'` decimals for `d ≤ d'` -/
+theorem lattice_mono (x : ℚ) (d d' : ℕ) (hdd : d ≤ d') (h : ∃ m : ℤ, x = m / 10 ^ d) :
+    ∃ m : ℤ, x = m / 10 ^ d' := by
+  obtain ⟨m, rfl⟩ := h
+  refine ⟨m * 10 ^ (d' - d), ?_⟩
+  have : (10 : ℚ) ^ d' = 10 ^ d * 10 ^ (d' - d) := by rw [← pow_add]; congr 1; omega
+  push_cast
+  rw [this]
+  field_simp
+
+end C15
+
+/-- **the number of decimals the constructor infers keeps the given numbers** (`decimals=None`):
+for a first value and a spacing with at most 16 decimals (what `'{:.16f}'` can show), rounding to
+`max(decimals(first), decimals(delta))` decimals changes neither, so the constructor's descriptors
+*are* the given numbers, lie on the decimal lattice, and the spacing is positive.  This discharges
+the hypotheses `OnDec`, `0 < delta` and — with `c15_constructor_grid_exact` — the grid-construction
+hypothesis for the inferred-decimals constructor. -/
+theorem c15_auto_constructor_exact (g0 δ0 : ℚ) (fd maxDec : ℕ) (hg : ∃ n : ℤ, g0 = n / 10 ^ 16)
+    (hδ : ∃ n : ℤ, δ0 = n / 10 ^ 16) (hpos : 0 < δ0) (hmax : 16 ≤ maxDec) :
+    ∃ G, mkGridAuto (fun q => q) g0 δ0 fd maxDec = some G ∧ G.lb = g0 ∧ G.delta = δ0 ∧
+      C15.OnDec G ∧ 0 < G.delta ∧ G.dec = max (decimalsOf g0) (decimalsOf δ0) := by
+  set dec := max (decimalsOf g0) (decimalsOf δ0) with hdec
+  obtain ⟨a, ha⟩ := C15.lattice_mono g0 _ dec (le_max_left _ _) (C15.decimalsOf_lattice g0 hg)
+  obtain ⟨b, hb⟩ := C15.lattice_mono δ0 _ dec (le_max_right _ _) (C15.decimalsOf_lattice δ0 hδ)
+  have hlb : (mkGrid g0 δ0 dec fd).lb = g0 := by
+    show aroundDec dec g0 = g0
+    rw [ha]; exact C15.aroundDec_lattice dec a
+  have hdl : (mkGrid g0 δ0 dec fd).delta = δ0 := by
+    show aroundDec dec δ0 = δ0
+    rw [hb]; exact C15.aroundDec_lattice dec b
+  have hle16 : ∀ x : ℚ, decimalsOf x ≤ 16 := by
+    intro x
+    unfold decimalsOf
+    simp only []
+    split_ifs <;> omega
+  have hdec16 : dec ≤ 16 := max_le (hle16 _) (hle16 _)
+  refine ⟨mkGrid g0 δ0 dec fd, ?_, hlb, hdl, C15.mkGrid_onDec _ _ _ _, by rw [hdl]; exact hpos, rfl⟩
+  unfold mkGridAuto decimalsAuto mkGridChecked
+  rw [← hdec]
+  rw [if_neg (by push Not; constructor <;> omega)]
+  simp only [Int.toNat_natCast]
+  rw [if_pos (by rw [hdl]; simpa using hpos)]
+
+-- non-vacuity: 1.05 and 0.1 have at most 16 decimals; the inferred number of decimals of 1.05 is 2
+example : ∃ n : ℤ, (105 / 100 : ℚ) = n / 10 ^ 16 := ⟨105 * 10 ^ 14, by norm_num⟩
+example : ([1, 2, 4, 8] : List ℚ).Pairwise (· < ·) ∧ 2 ≤ ([1, 2, 4, 8] : List ℚ).length := by
+  constructor
+  · simp only [List.pairwise_cons, List.mem_cons, List.not_mem_nil, or_false, forall_eq_or_imp,
+      forall_eq, List.Pairwise.nil, and_true]
+    norm_num
+  · simp
+example : C15.ObjInv (⟨⟨0, 1, 0, 9⟩, [0, 1, 2]⟩ : PGObj ℚ) := by
+  have hG : C15.OnDec (⟨0, 1, 0, 9⟩ : PGrid ℚ) := ⟨0, 1, by simp, by simp⟩
+  refine ⟨hG, by norm_num, 2, ?_⟩
+  simp only [List.range_succ, List.range_zero, List.nil_append, List.cons_append, List.map_cons,
+    List.map_nil, C15.gp_exact _ hG]
+  norm_num
+example : pdfAddAll (fun d => d.length) ([] : PDFSetM ℤ ℕ) (permutationDicts ["a", "b"] [[1, 2], [5]]) =
+    some [([("a", 1), ("b", 5)], 2), ([("a", 2), ("b", 5)], 2)] := by decide
+example : pdfAdd ([([("a", (1 : ℤ))], (0 : ℕ))]) 7 [("a", 1)] = none := by decide
+example : irrLowerC ([1, 2, 4, 8] : List ℤ) 0 = none ∧ irrLowerArr ([1, 2, 4, 8] : List ℤ) [3, 0] = none ∧
+    irrUpperArr ([1, 2, 4, 8] : List ℤ) [3, 5] = some [4, 8] := by decide
